@@ -157,4 +157,28 @@ theorem lookupP_eq {below above : α → Bool} {l : List α} (h : Parted below a
   · simp only [lookupP, Spec.lookupP, upperBoundP_eq above h.above_mono, ok_bind]
   · simp only [lookupP, Spec.lookupP, equalRangeP_eq h, ok_bind]
 
+/-- the elements not after the key are those before it plus those equivalent to it -/
+theorem countP_not_above_eq {below above : α → Bool} (l : List α) (h : ∀ x ∈ l, below x = true → above x = false) :
+    l.countP (fun x => !above x) = l.countP below + l.countP (Spec.equivP below above) := by
+  induction l with
+  | nil => simp
+  | cons x xs ih =>
+    have hx := h x (by simp)
+    have ih' := ih (fun y hy => h y (by simp [hy]))
+    have hx' : below x = true → above x = false := hx
+    rw [List.countP_cons, List.countP_cons, List.countP_cons, ih']
+    unfold Spec.equivP
+    cases hb : below x <;> cases ha : above x <;> simp_all <;> omega
+
+/-- every lookup member with a key of another type = its spec answer; `count` is the number of equivalent elements -/
+theorem hlookupP_eq {below above : α → Bool} {l : List α} (h : Parted below above l) (w : Lk) :
+    hlookupP below above l w = .ok (Spec.hlookupP below above l w) := by
+  cases w
+  case count =>
+    simp only [hlookupP, Spec.hlookupP, equalRangeP_eq h, ok_bind, Spec.upperBoundP, Spec.lowerBoundP,
+      countP_not_above_eq l h.excl]
+    congr 2
+    omega
+  all_goals (simp only [hlookupP, Spec.hlookupP]; exact lookupP_eq h _)
+
 end Tetl.C09
